@@ -804,6 +804,8 @@ class Exec:
             s_gc = None
         s = Scheduler(self.chooser, budget=k.get("budget", 400000), line_trace_files=lt)
         s.gc_rng, s.gc_prob = s_gc, float(k.get("gc") or 0.0)
+        if k.get("stall_task"):
+            s.stallt_rng, s.stallt_prob = random.Random(self.plan["seed"] ^ 0x57A77 ^ pi), float(k["stall_task"])
         if k.get("stall"):
             s.stall_rng, s.stall_prob = random.Random(self.plan["seed"] ^ 0x57A11 ^ pi), float(k["stall"])
 
